@@ -30,6 +30,7 @@ type MSlot struct {
 	Slice   bool // value is a slice of N members (flatten result, decorated group)
 	N       int
 	Flatten bool
+	Zero    bool // the function returns the zero value for this result
 }
 
 type MLeaf struct {
@@ -217,7 +218,7 @@ func slotsOf(f *Fn, o *Opts, deco bool) []MSlot {
 			}
 			return
 		}
-		s := MSlot{Path: path, T: r.T, N: 1}
+		s := MSlot{Path: path, T: r.T, N: 1, Zero: r.Zero && !r.Slice && !r.Flatten}
 		name, group, flatten := r.Name, r.Group, r.Flatten
 		if top {
 			name, group, flatten = optName, optGroup, optFlatten
